@@ -28,6 +28,7 @@
  *   fault <role> <class> <nth> eintr
  *   fault <role> <class> <nth> short <nbytes>
  *   fault <role> <class> <nth> err <ERRNO-NAME>
+ *   fault <role> <class> <nth> errfrom <ERRNO-NAME>   persistent: this and every later call of that (role, class) fails
  *   class in {open, read, write, stat, seek}
  */
 #define _GNU_SOURCE
@@ -52,7 +53,7 @@ enum role { R_OTHER, R_INPUT, R_DEST, R_DOTREGEX, R_DOTDFA, R_STDERR, R_STDOUT, 
 static const char *role_name[R_NROLES] = { "other", "input", "dest", "dotregex", "dotdfa", "stderr", "stdout", "stdin", "otherw" };
 enum cls { C_OPEN, C_READ, C_WRITE, C_STAT, C_SEEK, C_NCLS };
 static const char *cls_name[C_NCLS] = { "open", "read", "write", "stat", "seek" };
-enum act { A_NONE, A_EINTR, A_SHORT, A_ERR };
+enum act { A_NONE, A_EINTR, A_SHORT, A_ERR, A_ERRFROM };
 
 struct fault { int role, cls; long nth; int act; long arg; int used; };
 
@@ -207,6 +208,7 @@ __attribute__((constructor)) static void procsim_init(void) {
                 if (!strcmp(e, "eintr")) f->act = A_EINTR;
                 else if (!strcmp(e, "short")) { f->act = A_SHORT; f->arg = strtol(b, NULL, 0); }
                 else if (!strcmp(e, "err")) { f->act = A_ERR; f->arg = err_by_name(b); }
+                else if (!strcmp(e, "errfrom")) { f->act = A_ERRFROM; f->arg = err_by_name(b); }
                 else f->act = A_NONE;
                 if (f->role >= 0 && f->cls >= 0 && f->act != A_NONE) nfaults++;
             }
@@ -234,8 +236,16 @@ __attribute__((constructor)) static void procsim_init(void) {
 
 static struct fault *pick(int role, int cls) {
     long n = counts[role][cls]++;
-    for (int i = 0; i < nfaults; i++)
-        if (!faults[i].used && faults[i].role == role && faults[i].cls == cls && faults[i].nth == n) { faults[i].used = 1; return &faults[i]; }
+    for (int i = 0; i < nfaults; i++) {
+        if (faults[i].role != role || faults[i].cls != cls) continue;
+        if (faults[i].act == A_ERRFROM && n >= faults[i].nth) {
+            /* persistent failure: presented to the call sites as an ordinary hard error */
+            static struct fault persistent;
+            persistent = faults[i]; persistent.act = A_ERR;
+            return &persistent;
+        }
+        if (!faults[i].used && faults[i].nth == n) { faults[i].used = 1; return &faults[i]; }
+    }
     return NULL;
 }
 static int roleof(int fd) { return (fd >= 0 && fd < MAXFD) ? fdrole[fd] : R_OTHER; }
